@@ -22,15 +22,15 @@ VDOM = (-1000, 1000, 0)
 def gen_items(rnd, depth, budget, top=False):
     items = []
     n = rnd.randint(1, 3 if not top else 4)
-    kinds = ["var_k", "var_j", "chain", "swap", "probe", "probe", "fwd", "g_k", "g0", "reuse", "reuse_e", "reuse_f", "reuse_l", "reuse_x", "g_h", "var_h", "g_e", "var_e", "loop", "if"]
+    kinds = ["var_k", "var_j", "chain", "swap", "probe", "probe", "fwd", "g_k", "g0", "reuse", "reuse_e", "reuse_f", "reuse_l", "reuse_x", "g_h", "var_h", "g_e", "var_e", "loopvar", "forvar", "sym_k", "probe_geom", "probe_text", "loop", "if"]
     for _ in range(n):
         if budget[0] <= 0:
             break
         k = rnd.choice(kinds)
-        if k in ("g_k", "g0", "g_h", "g_e", "loop", "if") and depth >= 3:
+        if k in ("g_k", "g0", "g_h", "g_e", "loop", "if", "loopvar", "forvar", "sym_k") and depth >= 3:
             k = "probe"
         budget[0] -= 1
-        if k in ("g_k", "g0", "g_h", "g_e", "loop", "if"):
+        if k in ("g_k", "g0", "g_h", "g_e", "loop", "if", "loopvar", "forvar", "sym_k"):
             items.append([k, gen_items(rnd, depth + 1, budget)])
         else:
             items.append([k])
@@ -56,6 +56,8 @@ def templates(tier, seed):
         [["var_k"], ["reuse_l"], ["probe"]], [["reuse_l"], ["probe"]], [["var_k"], ["g_k", [["reuse_l"], ["probe"]]], ["probe"]],
         [["var_k"], ["g_e", [["probe"]]], ["probe"]], [["g_e", [["probe"]]], ["probe"]], [["var_k"], ["var_e"], ["probe"]], [["var_e"], ["probe"]], [["var_k"], ["g_k", [["var_e"], ["probe"]]], ["probe"]],
         [["var_k"], ["reuse_x"], ["probe"]], [["reuse_x"], ["reuse"], ["probe"]],
+        [["var_k"], ["loopvar", [["probe"]]], ["probe"]], [["loopvar", [["probe"], ["g_k", [["probe"]]]]], ["probe"]], [["var_k"], ["g_k", [["forvar", [["probe"]]], ["probe"]]], ["probe"]],
+        [["var_k"], ["sym_k"], ["probe"]], [["sym_k"], ["probe"]], [["var_k"], ["probe_geom"], ["g_k", [["probe_geom"]]], ["probe_geom"]], [["var_k"], ["var_j"], ["probe_text"]],
         [["g_k", [["probe"]]], ["probe"]],                                  # first scope opened on an empty stack
         [["reuse"], ["probe"]],
         [["g_k", [["var_j"], ["probe"]]], ["probe"], ["var_k"], ["probe"]],
@@ -172,6 +174,42 @@ def render(items, ren, stack, in_scope_with_fwd=None):
             ren.expect.append(dict(k=lookup(stack, "k"), j=lookup(stack, "j"), h=lookup(stack, "line-gap")))
             stack.pop()
             ren.features.add("reuse")
+        elif k in ("loopvar", "forvar"):
+            # the loop variable is a variable like any other: assigned (in the scope the loop stands in) before each pass, and
+            # left with its last value afterwards
+            vals2 = ("0", "1") if k == "loopvar" else ("7", "8")
+            ren.doc.append('<loop count="2" loop-var="k">' if k == "loopvar" else '<for var="k" data="7, 8">')
+            nv0 = len(ren.vars)
+            for pi, val in enumerate(vals2):
+                stack[-1]["k"] = "lit:" + val
+                if pi == 0:
+                    render(it[1], ren, stack)
+                else:
+                    replay_render(it[1], ren, stack, nv0)
+            if ren.has_fwd:
+                ren.features.add("assign-after-fwd")
+            ren.doc.append("</loop>" if k == "loopvar" else "</for>")
+        elif k == "sym_k":
+            # <symbol> opens a scope like <g>; its content is not rendered, so what is probed is the state AFTER it
+            v = ren.newvar()
+            n_before = len(ren.expect)
+            ren.doc.append(f'<symbol k="[[{v}]]">')
+            stack.append({"k": v})
+            render([["var_j"]], ren, stack)
+            stack.pop()
+            ren.doc.append("</symbol>")
+            del ren.expect[n_before:]
+        elif k == "probe_geom":
+            # the same variables read in a geometry attribute and in text
+            kv = lookup(stack, "k")
+            if isinstance(kv, int):
+                ren.doc.append('<rect xy="$k 3" wh="1" data-p="$k" data-q="$j" data-r="${line-gap}"/>')
+                ren.expect.append(dict(k=kv, j=lookup(stack, "j"), h=lookup(stack, "line-gap"), gx=kv))
+            else:
+                it[0] = "skip"
+        elif k == "probe_text":
+            ren.doc.append('<rect wh="1" data-p="$k" data-q="$j" data-r="${line-gap}"/><text xy="0">k=$k;j=$j</text>')
+            ren.expect.append(dict(k=lookup(stack, "k"), j=lookup(stack, "j"), h=lookup(stack, "line-gap"), tx=(lookup(stack, "k"), lookup(stack, "j"))))
         elif k == "var_e":
             # a definition with the empty string as value is a definition
             ren.doc.append('<var k=""/>')
@@ -288,6 +326,24 @@ def replay_render(items, ren, stack, nv_start):
                 stack.append({"k": nextvar()} if k == "g_k" else {})
                 go(it[1], stack)
                 stack.pop()
+            elif k in ("loopvar", "forvar"):
+                vals2 = ("0", "1") if k == "loopvar" else ("7", "8")
+                nv = counter[0]
+                c2 = nv
+                for val in vals2:
+                    counter[0] = nv
+                    stack[-1]["k"] = "lit:" + val
+                    go(it[1], stack)
+                    c2 = counter[0]
+                counter[0] = c2
+            elif k == "sym_k":
+                nextvar()
+                nextvar()
+            elif k == "probe_geom":
+                kv = lookup(stack, "k")
+                ren.expect.append(dict(k=kv, j=lookup(stack, "j"), h=lookup(stack, "line-gap"), gx=kv if isinstance(kv, int) else None))
+            elif k == "probe_text":
+                ren.expect.append(dict(k=lookup(stack, "k"), j=lookup(stack, "j"), h=lookup(stack, "line-gap"), tx=(lookup(stack, "k"), lookup(stack, "j"))))
             elif k == "var_e":
                 stack[-1]["k"] = "lit:"
             elif k == "g_e":
@@ -385,7 +441,7 @@ def build(td, wrong=False):
         return any(it[0] in kinds or (len(it) > 1 and has(it[1], kinds)) for it in items)
     first_fwd = next((i for i, it in enumerate(td["prog"]) if has([it], ("fwd", "reuse_e", "reuse_f", "reuse_l"))), None)
     if first_fwd is not None:
-        assigns = ("var_k", "var_j", "var_h", "var_e", "chain", "swap")
+        assigns = ("var_k", "var_j", "var_h", "var_e", "chain", "swap", "loopvar", "forvar", "sym_k")
         if any(has([it], assigns) for i, it in enumerate(td["prog"]) if i > first_fwd or (has([it], ("fwd", "reuse_e", "reuse_f", "reuse_l")))):
             feats.add("assign-after-fwd")
     if "assign-after-fwd" in feats:
@@ -420,5 +476,7 @@ def build(td, wrong=False):
                         obls.append(Obl(f"probe{i}.${nm}-resolved", FAIL, ground=True, note=f"{got!r} expected definition v{want}"))
                         continue
                     obls.append(Obl(f"probe{i}.${nm}-is-definition-v{want}", ne(t, f"v{want}")))
+            if isinstance(ex.get("gx"), int):
+                obls.append(Obl(f"probe{i}.x-is-definition-v{ex['gx']}", ne(o.num(e, "x"), f"v{ex['gx']}")))
         return obls
     return Template(f"{td['fam']}/{td['n']}", doc, ren.vars, check, family="scoping-" + td["fam"], role=role, cap=4, meta=dict(prog=td["prog"]))
